@@ -27,10 +27,51 @@ def run(rep: Report, repo: Repo):
     thread_writes(rep, repo)
 
 
+EVAL_TEXT = {
+    'C07.operands': 'the scheduling passes leave the op table as translated (evaluated)',
+    'C07.level': 'level boundaries partition the op list and every operand (through its stem when forks are stripped) is produced in an earlier level (evaluated)',
+    'C07.release': 'nothing is released unless c_reuse; a region is released once, only after the allocations of the last level that reads it (evaluated)',
+    'C08.pins': 'zero / scratch slots, input slots and lines captured by ports and state elements have memory that is never released (evaluated)',
+    'C08.alloc': 'every produced line has a region; recorded capacity >= max(c_caps_min, requested) and <= the region (evaluated)',
+    'C08.alias': 'a stripped branch has (loc, cap) of its stem, an output slot those of the line at input 0 (evaluated)',
+    'C08.size': 'c_len covers every region ever handed out (evaluated)',
+}
+
+
+def evaluated_block(rep, repo, smod, init, rules):
+    """The schedule / memory-map block of SimOps.__init__ evaluated on stand-in circuits (kvstatic/mapeval.py, Engine M). Registers the given rule
+    ids with their evaluated obligations and returns True; returns False when the block is outside the evaluator subset (the structural
+    rules decide then). The evaluation is done once per run and shared by the C07 and C08 rule groups."""
+    from kvstatic import mapeval
+    if not hasattr(repo, '_mapeval'):
+        try:
+            repo._mapeval = mapeval.run(init)
+            repo._mapeval_why = 'an integer constant in the block is no op-column number (possible size threshold)'
+        except ModelError as e:
+            repo._mapeval = None
+            repo._mapeval_why = str(e)
+    res = repo._mapeval
+    if res is None:
+        rep.note(f'{rules[0][:3]}: schedule / memory-map block of SimOps.__init__ is outside the evaluated subset ({repo._mapeval_why}); the structural rules decide')
+        return False
+    for rid in rules:
+        rep.rule(rid, EVAL_TEXT[rid])
+        bad = res['findings'].get(rid)
+        rep.ob(rid, f'contract on {res["evaluations"]} evaluations ({res["circuits"]} stand-in circuits x strip_forks x c_reuse x capacities)', bad is None,
+               evals=res['evaluations'] if rid == rules[0] else 0, sample={'rule': rid, 'evaluations': res['evaluations'], 'ok': bad is None})
+        if bad is not None:
+            msg, desc = bad
+            rep.violate(rid, smod, init, rid.split('.')[1], f'SimOps.__init__: {msg} - on {desc}', node=init)
+    rep.floor('evaluations of the schedule / memory-map block', res['evaluations'], 400)
+    return True
+
+
 def schedule_rules(rep, repo):
     """Level test / reference counting / release structure of SimOps.__init__ (also included by the checks of
     properties whose results depend on a valid schedule: C01, C02, C03, C05, C06)."""
     smod, init = simops.simops_init(repo)
+    if evaluated_block(rep, repo, smod, init, ('C07.operands', 'C07.level', 'C07.release')):
+        return
     P = simops.Passes(init)
 
     # ---- 1. one operand set, three passes
